@@ -63,8 +63,11 @@ def imports (fields : List String) : List String :=
         (defs.toArray.qsort (· < ·)).toList
   | _ => ["X bad-fields"]
 
-/-- `libs`: fields = mode, `F<path>=<content>` library files relative to the program directory,
-`R<name/elements>=<text>` registered sources, `>` submissions -/
+/-- `libs`: fields = mode, `F<path>=<content>` files relative to the program base directory,
+`W<path>=<content>` files in the process's working directory (keys `cwd/<path>`),
+`R<name/elements>=<text>` registered sources, `>` submissions, `E<relpath>` runs the program file
+at that key through `evalFile`; a field `D` records the program directory only THEN: if there is
+one, the interpreter starts without a program directory (lookups go to the working directory) -/
 def libs (fields : List String) : List String :=
   match fields with
   | mode :: rest =>
@@ -78,6 +81,14 @@ def libs (fields : List String) : List String :=
         let entry : Interp.FileEntry :=
           if content == "\x00UNREADABLE" || content == "\x00DIR" then .unreadable else .text content
         (out, { st with files := (path, entry) :: st.files })
+      | 'W' :: body =>
+        let path := String.ofList (body.takeWhile (· ≠ '='))
+        let content := String.ofList ((body.dropWhile (· ≠ '=')).drop 1)
+        (out, { st with files := ("cwd/" ++ path, .text content) :: st.files })
+      | ['D'] => (out, { st with dir := "" })
+      | 'E' :: rel =>
+        let (r, st) := Interp.evalFile evalFuel st (String.ofList rel)
+        (out ++ [showResult st r], st)
       | 'R' :: body =>
         let name := String.ofList (body.takeWhile (· ≠ '='))
         let text := String.ofList ((body.dropWhile (· ≠ '=')).drop 1)
@@ -90,7 +101,8 @@ def libs (fields : List String) : List String :=
         let (r, st) := Interp.evalText evalFuel st form
         (out ++ [showResult st r], st)
       | _ => (out, st)
-    (rest.foldl step ([], initState mode)).1
+    let late := rest.any (· == "D")
+    (rest.foldl step ([], { initState mode with dir := if late then "cwd" else "" })).1
   | [] => ["X bad-fields"]
 
 def hexBytes (s : String) : ByteArray :=
